@@ -466,8 +466,7 @@ theorem lexStep_append (c : Nat) (a rest : List Nat) (k : Kind) (b1 p1 bol sp : 
   rw [lexStep.eq_2] at h
   by_cases hlc : [47, 47].isPrefixOf (c :: a) = true
   · rw [if_pos hlc] at h
-    generalize skipLine (List.drop 1 a) = o at h
-    cases o <;> cases h
+    cases h
   rw [if_neg hlc] at h
   by_cases hbc : [47, 42].isPrefixOf (c :: a) = true
   · rw [if_pos hbc] at h
@@ -838,8 +837,7 @@ theorem lexStep_tok_inv (s : List Nat) (bol sp : Bool) (t : Tok) (r : List Nat)
   rw [lexStep.eq_2] at h
   by_cases hlc : [47, 47].isPrefixOf (c :: a) = true
   · rw [if_pos hlc] at h
-    generalize skipLine (List.drop 1 a) = o at h
-    cases o <;> cases h
+    cases h
   rw [if_neg hlc] at h
   by_cases hbc : [47, 42].isPrefixOf (c :: a) = true
   · rw [if_pos hbc] at h
